@@ -205,11 +205,6 @@ def check(ctx: Ctx, cases: List[dict]) -> None:
 def run(ctx: Ctx) -> None:
     cases = grid()
     ctx.exhaustive = True
-    if not ctx.thorough:
-        # quick: every (family, crash index, kind, protocol) once, alternating workers (the full grid is the thorough tier)
-        cases = [c for i, c in enumerate(cases) if (c["worker"] == "asyncio") == (hash((c["family"], c["crash_at"], c["kind"], c["proto"])) % 2 == 0)]
-        ctx.exhaustive = False
-        ctx.extra["grid"] = "every (family, crash index, kind, protocol) cell on one worker (alternating); both workers in the thorough tier"
     check(ctx, cases)
     # stream-level correspondence for the crash step itself (model = Http.appSend … none)
     reqs, metas = [], []
